@@ -18,7 +18,7 @@ import collections
 import os
 import re
 
-from engine import bounds, cfront, cover, definit, iface, omp
+from engine import bounds, cfront, cover, crules, definit, iface, omp
 from engine.cfront import estr, ewalk, swalk
 from engine.poly import Poly
 from rules import c20_table
@@ -43,6 +43,8 @@ def run(R):
         r4(R, tus)
     if R.want("C20.R5"):
         r5(R, tus, fns)
+    if R.want("C20.R7"):
+        r7(R, tus)
     if R.want("C20.R6"):
         r6(R, tus, fns)
 
@@ -538,3 +540,25 @@ def r6(R, tus, fns):
     if tot.get("PROVEN", 0) < FLOORS["PROVEN"] or total < FLOORS["total"]:
         R.fail("C20.R6 analysed %d accesses (%d PROVEN); the floors confirmed on the reference tree are %d / %d" % (
             total, tot.get("PROVEN", 0), FLOORS["total"], FLOORS["PROVEN"]))
+
+
+# --------------------------------------------------------------------------------------------------
+def r7(R, tus):
+    R.rule("C20.R7", "no difference a - b is stored into a variable of unsigned integer type (the int result of the subtraction "
+                     "wraps when negative: -fsanitize=implicit-integer-sign-change); index and coordinate arithmetic on the uint16 "
+                     "row / column arrays is done in int")
+    nf = 0
+    nun = 0
+    for f in cfront.all_funcs(tus):
+        nf += 1
+        for st in swalk(f.body):
+            if st.k == "decl" and st.var.ty and "*" not in st.var.ty and bounds.is_unsigned_ty(st.var.ty):
+                nun += 1
+        for line, ty, name, rhs in crules.unsigned_differences(f):
+            R.violation("C20.R7", f.file, line, f.name, "%s %s = %s" % (ty, name, rhs),
+                        "the difference is evaluated in int and converted to %s: for a first row / column (or any a < b) it wraps to a "
+                        "huge positive value and every later comparison or index computed from it is wrong" % ty)
+        R.inst("C20.R7", "%s:%s" % (f.file, f.name))
+    R.note("C20.R7: %d functions, %d local variables of unsigned type examined" % (nf, nun))
+    if nf < 60:
+        R.fail("C20.R7 saw %d functions, expected at least 60" % nf)
